@@ -634,6 +634,33 @@ def rule_builders(ctx):
                           "value stored as configured", "the configured value is rewritten by %s before it is stored: `matches` compares packet fields with the rewritten value, so "
                           "the listed address / port no longer matches itself (and another one does)" % ",".join(extra), ctx.loc(b, blk))
     ctx.floor("R7", "builder push sites in the three filter.rs copies", n, 24)
+    # builders accumulate: chaining `.destination(22).destination_list(vec![80, 443])` lists all three ports.  No builder method replaces a
+    # list that earlier calls filled (assignment to a Vec field of self outside the constructors)
+    k = 0
+    for crate in ("huginn_net_tcp", "huginn_net_http", "huginn_net_tls"):
+        for b in sorted(P.bodies.values(), key=lambda x: x.path):
+            if b.crate != crate or "::filter::" not in b.path or b.kind != "AssocFn" or b.name in ("new", "default") or b.impl_trait:
+                continue
+            if b.arg_count < 1 or not b.local_ty(1).split("::")[-1].startswith(("PortFilter", "IpFilter", "SubnetFilter", "FilterConfig")):
+                continue
+            k += 1
+            for i, j, s in b.iter_stmts():
+                if s["k"] != "assign" or s["p"]["l"] != 1 or not s["p"]["pr"]:
+                    continue
+                names = [x.get("n") for x in s["p"]["pr"] if isinstance(x, dict) and x.get("n")]
+                if not names:
+                    continue
+                fty = ""
+                for adt in P.adts.values():
+                    if adt["path"].endswith((b.impl_self or "").split("<")[0].split("::")[-1]) and adt["path"].startswith(crate):
+                        for f in adt["variants"][0]["fields"]:
+                            if f["name"] == names[0]:
+                                fty = f["ty"]
+                if "Vec<" in fty:
+                    ctx.fail("R7", "%s:%s::%s:replaces:%s" % (crate, (b.impl_self or "").split("::")[-1], b.name, names[0]),
+                             "%s::%s assigns to the list `%s` instead of adding to it: values configured by earlier builder calls are silently dropped, so a listed "
+                             "port / address no longer matches" % ((b.impl_self or "").split("::")[-1], b.name, names[0]), ctx.loc(b, i))
+    ctx.floor("R7", "builder methods of the filter types", k, 30)
     # direction / mode setters assign exactly the documented flags
     want = {"source_only": {"check_source": True, "check_destination": False}, "destination_only": {"check_source": False, "check_destination": True},
             "any_port": {"match_any": True}, "new": None}
